@@ -5,6 +5,7 @@ environment (did NGINX take the files / the reload / the Plus API update) as exp
 
 Mirrored Go:
   `updateUpstreamServers`  ↦ `upstreamsErr`   (no-op unless Plus; fails when the Plus API fails)
+  `if h.cfg.plus && h.latestReloadResult.Error == nil` (c94173a) ↦ `apiOnly`
   `updateNginxConf`        ↦ `nginxConfErr`   (ReplaceFiles, then Reload, then updateUpstreamServers)
   the `switch changeType` + `h.latestReloadResult = nginxReloadRes` + `h.updateStatuses` ↦ `step`
 The environment part of the state (`stale`, `lastFail`) is what the harness records from its stubs; it is the
@@ -43,33 +44,50 @@ def upstreamsErr (plus : Bool) (o : Outcome) : Bool := plus && !o.apiOk
 def nginxConfErr (plus : Bool) (o : Outcome) : Bool :=
   !o.writeOk || (!o.reloadOk || upstreamsErr plus o)
 
+/-- `h.cfg.plus && h.latestReloadResult.Error == nil` (since /repo c94173a): an EndpointsOnlyChange goes through the NGINX Plus
+API alone only while the remembered result is "no error"; `prevErr` = `h.latestReloadResult.Error != nil` before the batch -/
+def apiOnly (plus prevErr : Bool) : Bool := plus && !prevErr
+
 /-- does the batch apply the whole configuration (files + reload)? -/
-def fullApply (plus : Bool) : ChangeType → Bool
+def fullApply (plus prevErr : Bool) : ChangeType → Bool
   | .noChange => false
-  | .endpointsOnly => !plus
+  | .endpointsOnly => !apiOnly plus prevErr
   | .clusterState => true
 
 /-- the `err` of the `switch changeType` in HandleEventBatch -/
-def applyErr (plus : Bool) (ct : ChangeType) (o : Outcome) : Bool :=
+def applyErr (plus prevErr : Bool) (ct : ChangeType) (o : Outcome) : Bool :=
   match ct with
   | .noChange => false
-  | .endpointsOnly => if plus then upstreamsErr plus o else nginxConfErr plus o
+  | .endpointsOnly => if apiOnly plus prevErr then upstreamsErr plus o else nginxConfErr plus o
   | .clusterState => nginxConfErr plus o
+
+/-- one HandleEventBatch with the remembered result the EndpointsOnlyChange arm consults given explicitly -/
+def stepWith (plus prevErr : Bool) (s : HState) (ct : ChangeType) (o : Outcome) : HState × Option Bool :=
+  match ct with
+  | .noChange => (s, none)
+  | _ =>
+    let err := applyErr plus prevErr ct o
+    ({ version := s.version + 1, latestErr := err,
+       stale := if fullApply plus prevErr ct then (!o.writeOk || !o.reloadOk) else s.stale,
+       lastFail := err }, some err)
 
 /-- one HandleEventBatch: new state and the reload result handed to `updateStatuses` (`none`: NoChange returns
 before any status update) -/
 def step (plus : Bool) (s : HState) (ct : ChangeType) (o : Outcome) : HState × Option Bool :=
-  match ct with
-  | .noChange => (s, none)
-  | _ =>
-    let err := applyErr plus ct o
-    ({ version := s.version + 1, latestErr := err,
-       stale := if fullApply plus ct then (!o.writeOk || !o.reloadOk) else s.stale,
-       lastFail := err }, some err)
+  stepWith plus s.latestErr s ct o
 
 def run (plus : Bool) : HState → List (ChangeType × Outcome) → HState
   | s, [] => s
   | s, (ct, o) :: rest => run plus (step plus s ct o).1 rest
+
+/-- PRE-FIX VARIANT (before /repo c94173a; regression detector, see `prefix_plus_reports_success_while_stale`): the
+EndpointsOnlyChange arm tested `h.cfg.plus` only, so with NGINX Plus it used the API alone even after a failed write / reload -/
+def stepPreFix (plus : Bool) (s : HState) (ct : ChangeType) (o : Outcome) : HState × Option Bool :=
+  stepWith plus false s ct o
+
+def runPreFix (plus : Bool) : HState → List (ChangeType × Outcome) → HState
+  | s, [] => s
+  | s, (ct, o) :: rest => runPreFix plus (stepPreFix plus s ct o).1 rest
 
 /-- the truth: NGINX failed to take the last applied configuration -/
 def HState.failed (s : HState) : Bool := s.stale || s.lastFail
@@ -110,7 +128,7 @@ def stepStickyError (plus : Bool) (s : HState) (ct : ChangeType) (o : Outcome) :
   match ct with
   | .noChange => (s, none)
   | _ =>
-    let e := s.latestErr || applyErr plus ct o
+    let e := s.latestErr || applyErr plus s.latestErr ct o
     ({ (step plus s ct o).1 with latestErr := e }, some e)
 
 end NGF.HandlerStatus
